@@ -149,6 +149,7 @@ type fnTrans struct {
 	optAxioms     map[string]Term
 	seqViews      map[string]Term
 	ghostParams   []bound
+	usedImmut     map[string]bool
 	allowed       map[string][]Term
 	allowedAll    bool
 	allowedDone   bool
@@ -253,7 +254,15 @@ func (t *fnTrans) fieldVar(st types.Type, field int) *StateVar {
 	s := st.Underlying().(*types.Struct)
 	f := s.Field(field)
 	name := "F_" + typeKey(st) + "_" + sanitize(f.Name())
-	return t.stateVar(name, "(Array Int "+t.S.sortOf(f.Type())+")", "field", true, f.Type())
+	heap := true
+	if n, ok := types.Unalias(st).(*types.Named); ok && n.Obj().Pkg() != nil {
+		if t.eng.contracts.Immut[n.Obj().Pkg().Path()][n.Obj().Name()+"."+f.Name()] {
+			// declared immutable after construction: never havocked; writes are checked by the package sweep
+			heap = false
+			t.usedImmut[n.Obj().Pkg().Path()+"."+n.Obj().Name()+"."+f.Name()] = true
+		}
+	}
+	return t.stateVar(name, "(Array Int "+t.S.sortOf(f.Type())+")", "field", heap, f.Type())
 }
 func (t *fnTrans) derefVar(elem types.Type) *StateVar {
 	return t.stateVar("D_"+typeKey(elem), "(Array Int "+t.S.sortOf(elem)+")", "deref", true, elem)
@@ -1029,6 +1038,9 @@ func (t *fnTrans) pass() {
 	t.selects = nil
 	t.usedExterns, t.usedBenign, t.opaqueCalls = map[string]bool{}, map[string]bool{}, map[string]bool{}
 	t.usedContracts, t.usedLocks = map[string]*FuncContract{}, map[string]bool{}
+	if t.usedImmut == nil {
+		t.usedImmut = map[string]bool{}
+	}
 	t.axiomTerms, t.extraQueries, t.usedAxioms, t.optAxioms = nil, nil, nil, map[string]Term{}
 	t.seqViews, t.seqFacts = nil, nil
 	t.allowedDone, t.allowed, t.allowedAll = false, nil, false
@@ -1259,6 +1271,11 @@ func (t *fnTrans) block(b *ssa.BasicBlock) {
 // loopEdge: invariant obligations when control enters (or re-enters) a loop header from b.
 func (t *fnTrans) loopEdge(b *ssa.BasicBlock, si int, li *loopInfo, back bool) {
 	cond := t.edgeCondLocal(b, si)
+	for _, a := range t.cells {
+		if a.Comment == "rangeindex" && !a.Heap && t.loopMod[li.header.Index][t.cellName[a]] && a.Block().Dominates(li.header) {
+			t.oblige("invariant", fmt.Sprintf("loop%d.rangeindex", li.ordinal), "range counter within [-1, 2^62]", fmt.Sprintf("(=> %s (and (<= (- 1) %s) (<= %s 4611686018427387904)))", cond, t.toInt(t.get(t.cur, t.cellName[a]), tInt), t.toInt(t.get(t.cur, t.cellName[a]), tInt)), b.Instrs[len(b.Instrs)-1].Pos())
+		}
+	}
 	if back {
 		h := li.header.Index
 		for _, name := range sortedKeys(t.vars) {
@@ -1339,6 +1356,13 @@ func (t *fnTrans) loopHead(li *loopInfo) {
 			if c := t.frameCond(name, t.cur); c != "" {
 				t.assume(c)
 			}
+		}
+	}
+	// range-over-slice counters start at -1 and only ever grow by one (checked on each edge)
+	for _, a := range t.cells {
+		if a.Comment == "rangeindex" && !a.Heap && mods[t.cellName[a]] {
+			ix := t.toInt(t.get(t.cur, t.cellName[a]), tInt)
+			t.assume(fmt.Sprintf("(and (<= (- 1) %s) (<= %s 4611686018427387904))", ix, ix))
 		}
 	}
 	// phis at loop headers are fresh
